@@ -9,6 +9,9 @@ package main
 import (
 	"bytes"
 	"crypto/ecdsa"
+	"crypto/sha256"
+	"crypto/x509"
+	"encoding/base64"
 	"errors"
 	"fmt"
 	"io"
@@ -491,6 +494,34 @@ func run(r *mon.Run) {
 				guard(r, "Exchange.Verify", fmt.Sprintf("signature-list=%d-members", rep+1), []byte(e.SignatureHeaderValue[:200]), len(e.SignatureHeaderValue)+len(s)+(rep+1)*len(idA.CBOR), func() { e.Verify(date, idA.Fetcher(), quietLog) })
 			}
 		}
+		// a parseable certificate whose key is of a kind the signer never produces, named by a matching cert-sha256 and
+		// followed by a well-formed ECDSA signature value: every earlier step of Verify passes
+		if i == 0 {
+			for _, kind := range []string{"p224", "p521", "rsa", "ed25519"} {
+				if !mine() {
+					continue
+				}
+				fc := gen.ForeignCert(r.Rand("foreign", 0), kind, "example.com")
+				ch, cerr := certurl.NewCertChain([]*x509.Certificate{fc}, []byte("ocsp"), nil)
+				if cerr != nil {
+					r.HarnessFail("foreign chain: %v", cerr)
+					continue
+				}
+				var cb bytes.Buffer
+				ch.Write(&cb)
+				oldSum := sha256.Sum256(idA.Certs[0].Raw)
+				newSum := sha256.Sum256(fc.Raw)
+				e := *e0
+				e.SignatureHeaderValue = strings.Replace(e.SignatureHeaderValue, base64.StdEncoding.EncodeToString(oldSum[:]), base64.StdEncoding.EncodeToString(newSum[:]), 1)
+				if e.SignatureHeaderValue == e0.SignatureHeaderValue {
+					r.HarnessFail("foreign key workload: cert-sha256 not found in the Signature header")
+					continue
+				}
+				guard(r, "Exchange.Verify(foreign key type)", "cert-key="+kind, fc.Raw, len(s)+cb.Len(), func() {
+					e.Verify(date, func(string) ([]byte, error) { return cb.Bytes(), nil }, quietLog)
+				})
+			}
+		}
 		certEach := func(class string, m []byte) {
 			if !mine() {
 				return
@@ -561,6 +592,20 @@ func run(r *mon.Run) {
 					s2 := &bundle.Signatures{Authorities: sigs.Authorities, VouchedSubsets: []*bundle.VouchedSubset{{Authority: auth, Sig: sigs.VouchedSubsets[0].Sig, Signed: honestSubset}}}
 					guard(r, "NewVerifier", fmt.Sprintf("authority=2^%d", bits(auth)), nil, len(honestSubset), func() { signature.NewVerifier(s2, date, b.Version) })
 				}
+			}
+			// authorities whose key is of a kind the signer never produces, with a well-formed ECDSA signature value
+			for _, kind := range []string{"p224", "p521", "rsa", "ed25519"} {
+				if !mine() {
+					continue
+				}
+				fc := gen.ForeignCert(r.Rand("foreign", 1), kind, "example.com")
+				s2 := &bundle.Signatures{Authorities: []*certurl.AugmentedCertificate{{Cert: fc}}, VouchedSubsets: []*bundle.VouchedSubset{{Authority: 0, Sig: sigs.VouchedSubsets[0].Sig, Signed: honestSubset}}}
+				guard(r, "NewVerifier(foreign key type)", "authority-key="+kind, fc.Raw, len(honestSubset)+len(fc.Raw), func() {
+					v, err := signature.NewVerifier(s2, date.Add(time.Minute), b.Version)
+					if err == nil {
+						v.VerifyExchange(b.Exchanges[0])
+					}
+				})
 			}
 			_ = ecdsa.PublicKey{}
 		}
